@@ -10,8 +10,10 @@ import (
 	"io"
 	"os"
 	"reflect"
+	"runtime"
 	"strconv"
 	"strings"
+	"sync"
 	"time"
 
 	"github.com/boombuler/barcode"
@@ -351,6 +353,9 @@ func execOp(line string) (res string) {
 			res = "panic"
 		}
 	}()
+	if f[0] == "mut" && len(f) == 5 && f[1] == "aztec" {
+		return mutCheck(f[1:])
+	}
 	if bc, err, ok := barcodeOp(f); ok {
 		return classify(bc, err)
 	}
@@ -399,4 +404,77 @@ func rerun(lines []string, out io.Writer) {
 		fmt.Fprintln(out, "skipped-after-timeout")
 	}
 	_ = os.Stderr
+}
+
+// mutCheck: `mut aztec <hex> <pct> <layers>` — the encoder gets a private buffer; afterwards the buffer is
+// overwritten and every accessor / pixel is read again (C15: no aliasing, input not modified).
+func mutCheck(f []string) string {
+	buf := unhex(f[1])
+	orig := append([]byte(nil), buf...)
+	bc, err := aztec.Encode(buf, atoi(f[2]), atoi(f[3]))
+	input := 1
+	if string(buf) != string(orig) {
+		input = 0
+	}
+	line1 := classify(bc, err)
+	if !strings.HasPrefix(line1, "ok") {
+		return line1
+	}
+	for i := range buf {
+		buf[i] ^= 0xFF
+	}
+	line2 := classify(bc, err)
+	stable := 1
+	if line1 != line2 {
+		stable = 0
+	}
+	return fmt.Sprintf("%s stable=%d input=%d", line1, stable, input)
+}
+
+// runConcurrent: all ops are started from n goroutines at once (the very first library calls of this process),
+// results are printed in op order, followed by a `#conc` line with the number of goroutines still alive.
+func runConcurrent(in io.Reader, out io.Writer, n int) {
+	sc := bufio.NewScanner(in)
+	sc.Buffer(make([]byte, 1<<24), 1<<24)
+	var ops []string
+	for sc.Scan() {
+		ops = append(ops, sc.Text())
+	}
+	base := runtime.NumGoroutine()
+	results := make([]string, len(ops))
+	var wg sync.WaitGroup
+	start := make(chan struct{})
+	for g := 0; g < n; g++ {
+		wg.Add(1)
+		go func(g int) {
+			defer wg.Done()
+			<-start
+			for j := g; j < len(ops); j += n {
+				results[j] = execOp(ops[j])
+			}
+		}(g)
+	}
+	close(start)
+	done := make(chan struct{})
+	go func() { wg.Wait(); close(done) }()
+	select {
+	case <-done:
+	case <-time.After(240 * time.Second):
+		fmt.Fprintln(out, "#conc deadlock-or-timeout")
+		return
+	}
+	leaked := 0
+	for i := 0; i < 100; i++ {
+		leaked = runtime.NumGoroutine() - base
+		if leaked <= 0 {
+			break
+		}
+		time.Sleep(20 * time.Millisecond)
+	}
+	w := bufio.NewWriterSize(out, 1<<20)
+	for _, r := range results {
+		fmt.Fprintln(w, r)
+	}
+	fmt.Fprintf(w, "#conc leaked=%d goroutines=%d\n", leaked, n)
+	w.Flush()
 }
